@@ -7,7 +7,7 @@ LEVEL = 'proof'
 EXPLANATION = ("Outcome depends on graph and results only: exact skip/release rules as postconditions of decide_new_state* (skip iff a hard dependency FAILED/SKIPPED, release iff all dependencies final), worker iteration contract (raise / None / not a pair / bad status / non-mapping update / non-final status => FAILED, well-formed result keeps its status, do() once per dequeue, nothing escapes), at-most-once hand-over from the Owicki-Gries invariant, and the schedule-independence lemma (two solutions of the local rules on a ranked graph cannot first disagree anywhere). Safety reading: whenever execute_tasks returns; termination is C03's undecided part.")
 ASSUMPTIONS = su.ASSUMPTIONS
 TRUSTED = su.TRUSTED
-UNITS = 'decide decide_waiting last_end_time enqueue worker master schedule scheduler_init og independence env_locks merge_done dg_add_node dg_add_dependency dg_remove_node dg_flatten dg_histories env_conformance native_sweep'.split()
+UNITS = 'decide decide_waiting last_end_time enqueue worker master schedule scheduler_init backend_init og independence env_locks merge_done dg_add_node dg_add_dependency dg_remove_node dg_flatten dg_histories env_conformance native_sweep'.split()
 
 
 def units(tier):
